@@ -511,6 +511,24 @@ Definition reuse_plan (b : bdir) (src newn : bytes) (skip : nat) : reuse_res :=
            end
        end.
 
+(* ---------- the HyperLogLog write cache and the two places that must deal with it ----------
+   PFADD changes sit in an in-memory write cache (rockredis/t_hll.go hllCache) until it is flushed:
+   the logical content is what the engine holds plus the cache. Backup flushes the cache BEFORE it
+   hands the request to backupLoop (the checkpoint captures the engine); restoreFromPath closes the
+   engine — closeEng flushes the cache, the engine may roll to a new WAL file doing so — and only
+   THEN lists the data directory to decide what to remove. *)
+Record hstore := { h_engine : list N; h_cache : list N }.        (* writes in the engine / pending in the cache *)
+Definition h_logical (s : hstore) : list N := h_engine s ++ h_cache s.
+Definition h_flush (s : hstore) : hstore := {| h_engine := h_engine s ++ h_cache s; h_cache := [] |}.
+Definition h_capture (s : hstore) : list N := h_engine s.          (* what a checkpoint started now holds *)
+Definition backup_flush_then_capture (s : hstore) : list N := h_capture (h_flush s).
+Definition backup_capture_then_flush (s : hstore) : list N := h_capture s.     (* the flush comes too late *)
+
+(* restoreFromPath with the data directory listed at some moment: entries that are not in that
+   listing are never examined by the removal loop, hence stay *)
+Definition restore_plan_listed (fs : fsys) (listed actual ck : list dirent) : fsys * list dirent * bool :=
+  copy_all fs (filter (fun e => keep_entry fs ck e || negb (mem_name (fst e) (map fst listed))) actual) ck.
+
 (* ---------- the value level ---------- *)
 
 (* ck_src: 0 for a checkpoint the store made itself, else the id of the source it was transferred from
